@@ -173,6 +173,11 @@ func genROCase(rt *rapid.T) *roCase {
 	c.V = pickVariant(rt)
 	o := model.GenOpts{Dense: true, NoUnkeyed: true, MaxList: 2}
 	c.M = model.GenTree(rt, c.V, o)
+	for i := 0; i < 2 && leafCount(c.M) < 20; i++ {
+		if m := model.GenTree(rt, c.V, o); leafCount(m) > leafCount(c.M) {
+			c.M = m
+		}
+	}
 	switch rapid.IntRange(0, 2).Draw(rt, "second") {
 	case 0:
 		c.MB = subsetTree(rt, c.M, 20)
@@ -693,7 +698,15 @@ func genWRCase(avoidF15 bool) func(rt *rapid.T) *wrCase {
 	return func(rt *rapid.T) *wrCase {
 		c := &wrCase{}
 		c.V = pickVariant(rt)
-		c.M = model.GenTree(rt, c.V, model.GenOpts{Dense: true, NoUnkeyed: true, NoOrdered: rapid.Bool().Draw(rt, "noordered"), MaxList: 2})
+		wo := model.GenOpts{Dense: true, NoUnkeyed: true, NoOrdered: rapid.Bool().Draw(rt, "noordered"), MaxList: 2}
+		c.M = model.GenTree(rt, c.V, wo)
+		// the payload should have some size (the small OpenConfig-style variants often give a dozen leaves):
+		// up to two more trees are drawn and the largest is kept
+		for i := 0; i < 2 && leafCount(c.M) < 20; i++ {
+			if m := model.GenTree(rt, c.V, wo); leafCount(m) > leafCount(c.M) {
+				c.M = m
+			}
+		}
 		if rapid.Bool().Draw(rt, "emptybase") {
 			c.Base = model.NewNode(c.V.Root)
 		} else {
